@@ -341,8 +341,11 @@ def run_unit_verus(u, repo, tier="quick"):
     # solver time per obligation = SMT time of the function that carries it (Verus reports per function)
     ft = res.get("fn_times") or {}
     def fn_time_for(line):
+        if line is None:
+            return None
         for e in mp["extracts"]:
-            if e.get("gen_lines") and e["gen_lines"][0] <= line <= e["gen_lines"][1] and e["kind"] in ("whole-fn", "fragment"):
+            gl = e.get("gen_lines")
+            if gl and gl[0] is not None and gl[1] is not None and gl[0] <= line <= gl[1] and e["kind"] in ("whole-fn", "fragment"):
                 m = re.search(r"fn\s+([A-Za-z0-9_]+)\s*$", e["item"].strip())
                 nm = None
                 for l2 in src_lines[e["gen_lines"][0]:e["gen_lines"][0] + 4]:
